@@ -246,9 +246,16 @@ func testedValue(t Term) (Term, types.Type, bool) {
 }
 
 func unpack(args []Term) []Term {
-	if len(args) == 1 {
-		if pack, ok := args[0].(TLit); ok && pack.Node == nil {
-			return pack.Elts
+	if n := len(args); n > 0 {
+		if pack, ok := args[n-1].(TLit); ok && pack.Node == nil {
+			return append(append([]Term(nil), args[:n-1]...), pack.Elts...)
+		}
+		// `f(format, append(args, more)...)` with the callee's pack known: the pack's elements followed by the appended ones
+		if ap, ok := args[n-1].(TBuiltin); ok && ap.Name == "append" && len(ap.Args) >= 1 {
+			if pack, ok := ap.Args[0].(TLit); ok && pack.Node == nil {
+				out := append(append([]Term(nil), args[:n-1]...), pack.Elts...)
+				return append(out, ap.Args[1:]...)
+			}
 		}
 	}
 	return args
